@@ -25,12 +25,7 @@ Definition agree10 (c : case10) : bool :=
   spec_ok po pn cd && spec_ok pn po cr
   && seteq_b cd (parse_out (get_diff o n)) && seteq_b cr (parse_out (get_rollback o n)).
 
-Definition lines_eqb (a b : list str) : bool := list_eqb str_eqb a b.
-Definition all_same (l : list (list str)) : bool :=
-  match l with [] => true | x :: r => forallb (lines_eqb x) r end.
-
-(* (all renderings of the diff, all renderings of the rollback incl. the mirror diff, the self diff) *)
-Definition case10dev := (list (list str) * list (list str) * list str)%type.
-Definition agree10dev (c : case10dev) : bool :=
-  let '(ds, rs, self) := c in
-  all_same ds && all_same rs && match self with [] => true | _ => false end.
+(* device stream: the driver compared outputs of the real code with each other:
+   (all renderings of the diff equal, all renderings of the rollback incl. the mirror diff equal, self diff empty) *)
+Definition case10dev := (bool * bool * bool)%type.
+Definition agree10dev (c : case10dev) : bool := let '(a, b, e) := c in a && b && e.
